@@ -269,7 +269,17 @@ def check_region_choice(ctx, rep):
     if not recs:
         rep.unknown("SA", f.decl, f, "region choice", "recursive evaluation not found (shape changed)")
         return
-    want = ("cells_[cellInd]", "regions_[i].row")
+    # the (cell, row) pair being tried is the one handed to the y model just before the recursive evaluation
+    want = None
+    for y in walk(f.body):
+        if y.get("kind") == "CXXMemberCallExpr" and callee_info(y)["name"] == "updateCellPos" and len(callee_info(y)["args"]) >= 2:
+            from .common import expand_locals as _xl
+            a0, a1 = _xl(ctx, f, canon(callee_info(y)["args"][0])), _xl(ctx, f, canon(callee_info(y)["args"][1]))
+            if a1[0] == "call" and a1[1].endswith("rowY") and len(a1) >= 4:
+                want = (pretty(a0), pretty(a1[3]))
+    if want is None:
+        rep.unknown("SA", f.decl, f, "region choice", "the tentative assignment ytopo_.updateCellPos(cell, rowY(row)) was not found (shape changed)")
+        return
     for x in recs:
         n = g.node_for(x)
         have = set()
